@@ -72,6 +72,19 @@ def install(cfg: Cfg):
     cfg.lib_overrides["pathlib.Path"] = lambda ex, f, args, kwargs, fr: args[0] if isinstance(args[0], VOpaque) and args[0].kind == "path" else mk_path(ex, path_text(args[0]))
     cfg.lib_overrides["path.joinpath"] = lambda ex, f, args, kwargs, fr: mk_path(ex, _join(path_text(f.self_val), path_text(args[0])))
     cfg.lib_overrides[("binop", "path")] = lambda ex, op, a, b: mk_path(ex, _join(path_text(a), path_text(b)))
+    def with_suffix(ex, f, args, kwargs, fr):
+        """pathlib: the final component's suffix (from its LAST dot, unless that dot leads or ends the name) is replaced by the new
+        suffix; a name without such a dot gets the suffix appended."""
+        t = path_text(f.self_val)
+        suf = z_str(args[0].v if isinstance(args[0], VStr) else path_text(args[0]))
+        slash = z3.LastIndexOf(t, z3.StringVal("/"))
+        start = z3.If(slash < 0, z3.IntVal(0), slash + 1)
+        name = z3.SubString(t, start, z3.Length(t) - start)
+        dot = z3.LastIndexOf(name, z3.StringVal("."))
+        has = z3.And(dot > 0, dot < z3.Length(name) - 1)
+        stem = z3.If(has, z3.SubString(name, 0, dot), name)
+        return mk_path(ex, z3.Concat(z3.SubString(t, 0, start), stem, suf))
+    cfg.lib_overrides["path.with_suffix"] = with_suffix
     cfg.lib_overrides["path.resolve"] = lambda ex, f, args, kwargs, fr: f.self_val
     cfg.lib_overrides["path.expanduser"] = lambda ex, f, args, kwargs, fr: f.self_val
     cfg.lib_overrides[("truth", "path")] = lambda ex, v: True
